@@ -150,8 +150,17 @@ structure Edge where
 
 def Circuit.validEdge (c : Circuit) (e : Edge) : Bool := c.validReg e.r && decide (e.pos ≤ (c.wire e.r).length)
 
-def Circuit.src (c : Circuit) (e : Edge) : V := (c.aug e.r).getD e.pos (V.inp e.r)
-def Circuit.dst (c : Circuit) (e : Edge) : V := (c.aug e.r).getD (e.pos + 1) (V.out e.r)
+/-- tail of the edge: the last node before position `pos` (the input node when there is none) -/
+def Circuit.src (c : Circuit) (e : Edge) : V :=
+  match ((c.wire e.r).take e.pos).getLast? with
+  | some n => V.op n
+  | none => V.inp e.r
+
+/-- head of the edge: the node at position `pos` (the output node when there is none) -/
+def Circuit.dst (c : Circuit) (e : Edge) : V :=
+  match ((c.wire e.r).drop e.pos).head? with
+  | some n => V.op n
+  | none => V.out e.r
 
 /-- all edges on registers of type `t` (= `edge_dict[t]` as a set) -/
 def Circuit.edgesOf (c : Circuit) (t : RegType) : List Edge :=
@@ -205,7 +214,7 @@ def Circuit.incompatInfo (c : Circuit) (e1 : Edge) : Incompat :=
   let b := c.dst e1
   let A := c.ancestors a
   let D := c.descendants b
-  ⟨A, D, closedUnder c.preds (c.preds a ++ A) && closedUnder c.succs (c.succs b ++ D)
+  ⟨A, D, closedUnder c.preds A && closedUnder c.succs D
          && (c.preds a).all (fun x => decide (x ∈ A)) && (c.succs b).all (fun x => decide (x ∈ D))⟩
 
 /-- membership in `find_incompatible_edges(e1)`:
@@ -257,11 +266,10 @@ def Circuit.addRegIfAbsent (c : Circuit) (r : Reg) : Except Err Circuit :=
 /-- the wires `_add` touches: the quantum registers of the operation, then its classical registers -/
 def Op.addRegs (op : Op) : List Reg := op.q ++ op.cr.map (Reg.mk .c)
 
-/-- `_add(operation)`: a new node at the end of each of its registers' wires -/
+/-- `_add(operation)`: the new node is spliced into the edge entering `<reg>_out` of each of its registers,
+    i.e. inserted on the last edge of each of those wires -/
 def Circuit.addCore (c : Circuit) (op : Op) : Circuit :=
-  let k := c.nid + 1
-  op.addRegs.foldl (fun c' r => c'.setWire r (c'.wire r ++ [k]))
-    { c with nid := k, node := fun n => if n = k then some op else c.node n }
+  c.insertAt op (op.addRegs.map fun r => ⟨r, (c.wire r).length⟩)
 
 /-- sort key of `sorted(zip(q_registers, q_registers_type))`: by index, then `"e" < "p"` -/
 def Reg.sortKey (r : Reg) : Nat := 2 * r.idx + (if r.ty = .p then 1 else 0)
